@@ -259,7 +259,13 @@ def _rand_op(rng, by):
         return {"kind": "cum", "fn": fn, "sel": sel}, (), False
     if kind == "transform":
         sel = rng.choice(num) if rng.random() < 0.7 else rng.sample(num, min(len(num), 2))
-        return {"kind": "transform", "func": rng.choice(sorted(TRANSFORMS)), "sel": sel}, ("shuffle_method",), False
+        func = rng.choice(sorted(TRANSFORMS))
+        if func == "demean":
+            # a Python function goes through pandas' slow path, whose result dtype for nullable / mixed frames is a
+            # pandas quirk (object columns, <NA> vs NaN): float columns only
+            fl = [c for c in ("c", "d") if c in num] or ["d"]
+            sel = rng.choice(fl) if rng.random() < 0.7 else fl
+        return {"kind": "transform", "func": func, "sel": sel}, ("shuffle_method",), False
     if kind == "shift":
         sel = rng.choice(anyc) if rng.random() < 0.7 else rng.sample(num, min(len(num), 2))
         op = {"kind": "shift", "periods": rng.choice((1, 1, -1, 2)), "sel": sel}
@@ -731,6 +737,8 @@ def _features(case, pdf, ddf, plan):
 def _fallback_pred(f):
     if not f.get("rows", 1):
         return "empty-frame"
+    if f.get("empty-result"):
+        return "empty-result"
     if f.get("cat-key") and f.get("observed") is False:
         return "cat-key&observed=False"
     return "other"
@@ -762,6 +770,7 @@ class _Judge:
 
         case, f, op = self.case, self.f, self.case["op"]
         self.got, self.exp = _short(r), _short(e)
+        f["empty-result"] = hasattr(e, "__len__") and len(e) == 0
         kind = op["kind"]
         agg_like = kind in ("single", "agg", "value_counts")
         # 1 -- object kind
@@ -868,10 +877,12 @@ class _Judge:
                         e = e[np.asarray([k not in miss for k in ek])]
         if not agg_like and kind != "cum" and len(r) != len(e):
             nam = _row_na_keys(self.pdf, case)
-            if f["dropna"] is not False and nam.any() and len(r) == len(e) - nam.sum():
+            if f["dropna"] is not False and nam.any() and len(e) - nam.sum() <= len(r) < len(e):
                 self.report("na-keys&dropna!=False", "rows-with-NA-key-missing",
-                            "%d rows vs expected %d: the %d rows whose key is NA are absent" % (len(r), len(e), nam.sum()),
-                            fam="transform-like")
+                            "%d rows vs expected %d: %d of the %d rows whose key is NA are absent"
+                            % (len(r), len(e), len(e) - len(r), nam.sum()), fam="transform-like")
+                if len(r) != len(e) - nam.sum():
+                    return
                 e = e[~nam]
         # 5 -- length
         if len(r) != len(e):
@@ -1019,7 +1030,8 @@ def _exc_prefix(case, name, feats, exc):
         pred = "series-key"
     elif "already exists" in msg and f["series-key-name-collides"]:
         fam, pred = "agg-any", "series-key-named-like-selected-column&shuffle"
-    elif fam == "median" and isinstance(exc, ZeroDivisionError) and f["split_every"] and f["split_every"] > f["npartitions"]:
+    elif fam == "median" and isinstance(exc, (ZeroDivisionError, AssertionError)) and f["split_every"] \
+            and f["split_every"] > f["npartitions"]:
         pred = "split_every>npartitions"
     elif fam == "agg" and fn == "_build_agg_args" and "conflicting aggregation" in msg and op["form"] == "named" \
             and len({tuple(v) for v in op["spec"].values()}) < len(op["spec"]):
@@ -1042,11 +1054,12 @@ def _exc_prefix(case, name, feats, exc):
     elif fam == "value_counts" and fn == "_groupby_aggregate" and "multiple levels" in msg and f["multi-key"] \
             and f.get("partition-without-non-NA-key"):
         pred = "multi-key&partition-without-non-NA-key"
-    elif fam == "value_counts" and isinstance(exc, KeyError) and fn == "operation" and f.get("partition-without-non-NA-key") \
-            and f["split_out>1"]:
-        pred = "partition-without-non-NA-key&split_out>1"
-    elif fam == "ffill-bfill" and f["nullable-int-key"] and f["dropna"] is False and "NA is ambiguous" in msg:
-        pred = "nullable-int-key&dropna=False"
+    elif fam == "value_counts" and isinstance(exc, KeyError) and f.get("partition-without-non-NA-key") and f["shuffle-plan"]:
+        pred = "partition-without-non-NA-key&shuffle"
+    elif fam in ("ffill-bfill", "transform") and f["nullable-int-key"] and f["dropna"] is False and "NA is ambiguous" in msg:
+        fam, pred = "transform-like", "nullable-int-key&dropna=False"
+    elif f["cat-key"] and f["observed"] is False and "non-empty take from an empty" in msg and op["kind"] in ("single", "agg"):
+        fam, pred = "agg-any", "cat-key&observed=False&multi-key" if f["multi-key"] else "cat-key&observed=False"
     elif fam in ("ffill-bfill", "transform") and f["na-keys"] and f["dropna"] is not False and fn == "_groupby_slice_transform" \
             and ("No objects to concatenate" in msg or "non-empty take from an empty" in msg):
         fam, pred = "transform-like", "na-keys&dropna!=False"
